@@ -15,7 +15,8 @@ ID = "C05"
 RULE = ("two tables read from generated BED/BED6/VCF/SAM/FASTQ/two-line FASTA/BAM files (all Lean-modelled), "
         "canonical and non-canonical text, whole and chunked read, each program run twice (lazy=True / lazy=False): random "
         "register programs over {len, get field, t[slice|mask|int list], t[i], np.concatenate([t,u]), replace(t, f=values), "
-        "t.f = values, tolist, write}; observation after every step; plus EVERY program of length <= 2 (quick) / <= 3 (thorough) over a "
+        "t.f = values, tolist, write}; observation after every step (lazy writes are additionally held to C04's rule: original bytes when "
+        "nothing was replaced, original text of every never-replaced column otherwise); plus EVERY program of length <= 2 (quick) / <= 3 (thorough) over a "
         "14-operation alphabet on a 2-row and a 1-row BED6 table. Non-trivial = the program touches >= 2 of "
         "{field access, index, concatenate, replace/setattr} before an observation")
 EXHAUSTIVE = {"quick": False, "thorough": False}   # the small-scope family is exhaustive, the rest is sampled
@@ -191,7 +192,7 @@ def make_case(rng, fmt, nops, canonical=None):
 def cases(tier, rng):
     G._tmp()    # scratch directory of the run: created in the parent, shared by the forked workers, removed at exit
     big = tier in ("thorough", "widen")
-    per = {"quick": 300, "thorough": 5000, "widen": 1500}[tier]
+    per = {"quick": 400, "thorough": 5000, "widen": 1500}[tier]
     L = 8 if big else 5
     fmts = ["bed", "bed6", "vcf", "sam", "fastq", "fasta2", "bam"]
     # fixed scenario family: cache / overlay interleavings around one concatenate
@@ -268,8 +269,17 @@ def oracle(c):
     fmt = c["fmt"]
     nF = len(KINDS[fmt])
     regs = [[[cell[1] for cell in r["cells"]] for r in t] for t in c["tables"]]
+    # what the LAZY table must write (C04): per row the original TEXT of every column that was never replaced in it or in an
+    # operand it was concatenated with, the value's spelling otherwise (FASTQ/FASTA concatenations are eager: every column)
+    texts = [[[cell[0] for cell in r["cells"]] for r in t] for t in c["tables"]]
+    over = [set() for _ in c["tables"]]
+    raws = [[r["raw"] for r in t] for t in c["tables"]]
+    lazy_w, lazy_raw = {}, {}
+    kline = fmt in ("fastq", "fasta2", "bam")
+    if kline and c["chunk"]:
+        over[0] = set(range(nF))    # register 0 is np.concatenate(chunks): eager for these formats when there are >= 2 chunks
     out = []
-    for o in c["ops"]:
+    for step, o in enumerate(c["ops"]):
         k, a = o["k"], o["a"]
         t = regs[a]
         if k == "len":
@@ -282,12 +292,19 @@ def oracle(c):
                 out.append("err")
             else:
                 regs[o["d"]] = r
+                texts[o["d"]] = G._py_index(texts[a], o["ix"])
+                raws[o["d"]] = G._py_index(raws[a], o["ix"])
+                over[o["d"]] = set(over[a])
                 out.append({"num": len(r)})
         elif k == "row":
             i = o["i"]
             out.append({"rows": [list(t[i])]} if -len(t) <= i < len(t) else "err")
         elif k == "cat":
-            regs[a] = [list(r) for r in t] + [list(r) for r in regs[o["b"]]]
+            b = o["b"]
+            texts[a] = [list(r) for r in texts[a]] + [list(r) for r in texts[b]]
+            raws[a] = list(raws[a]) + list(raws[b])
+            over[a] = set(range(nF)) if kline else (over[a] | over[b])
+            regs[a] = [list(r) for r in t] + [list(r) for r in regs[b]]
             out.append({"num": len(regs[a])})
         elif k in ("replace", "setattr"):
             kw = o["kw"] if k == "replace" else [[o["f"], o["c"]]]
@@ -295,14 +312,26 @@ def oracle(c):
             for f, vals in kw:
                 for i, r in enumerate(new):
                     r[f] = vals[i] if i < len(vals) else ""
-            regs[o["d"] if k == "replace" else a] = new
+            dst = o["d"] if k == "replace" else a
+            regs[dst] = new
+            texts[dst] = [list(r) for r in texts[a]]
+            raws[dst] = list(raws[a])
+            over[dst] = set(over[a]) | {f for f, _ in kw}
             out.append("unit")
         elif k == "tolist":
             out.append({"rows": [list(r) for r in t]})
         elif k == "write":
             # (BAM has no eager writer; the records of an unmodified BAM table are its source bytes — known finding when eager fails)
             out.append("err" if fmt == "bam" else {"bytes": _header(c) + "".join(_dump_row(fmt, r) for r in t)})
-    return {"spec": out}
+            lazy_w[str(step)] = [[v if f in over[a] else tx for f, (tx, v) in enumerate(zip(trow, vrow))]
+                                 for trow, vrow in zip(texts[a], t)]
+            if not over[a]:     # nothing replaced anywhere: the lazy table writes the records' original bytes (C04)
+                lazy_raw[str(step)] = _header(c) + "".join(raws[a])
+    return {"spec": out, "lazy_w": lazy_w, "lazy_raw": lazy_raw}
+
+
+def agree_spec(c, s, exp):
+    return core.canon(s.get("spec")) == core.canon(exp.get("spec"))
 
 
 def _dump_row(fmt, r):
@@ -475,10 +504,24 @@ def _first_diff(c, got):
     return None
 
 
+def _lazy_write_diff(c, got, exp):
+    """first write step at which the lazy table did not write the original text of its untouched columns (C04's rule)"""
+    if c["fmt"] == "bam":
+        return None
+    gc = {"fmt": c["fmt"], "eol": "\n", "samples": c["samples"]}
+    for i, o in enumerate(c["ops"]):
+        if o["k"] == "write" and isinstance(got["lazy"][i], dict) and str(i) in exp.get("lazy_w", {}):
+            if G._parse_written(gc, got["lazy"][i]["bytes"]) != exp["lazy_w"][str(i)]:
+                return i
+            if str(i) in exp.get("lazy_raw", {}) and got["lazy"][i]["bytes"] != exp["lazy_raw"][str(i)]:
+                return i
+    return None
+
+
 def agree(c, got, exp):
     if not isinstance(got, dict) or "lazy" not in got:
         return False
-    return _first_diff(c, got) is None
+    return _first_diff(c, got) is None and _lazy_write_diff(c, got, exp) is None
 
 
 def agree_model(c, got, m):
@@ -545,7 +588,7 @@ def finding_key(c, got, exp):
         return "harness"
     i = _first_diff(c, got)
     if i is None:
-        return "none"
+        return f"{c['fmt']}:write:lazy-original-text-lost" if _lazy_write_diff(c, got, exp) is not None else "none"
     a, b = got["lazy"][i], got["eager"][i]
     k = c["ops"][i]["k"]
     how = "lazy-raises" if a == "err" else "eager-raises" if b == "err" else "values-differ"
